@@ -27,7 +27,17 @@ Theorem C09_compact_ids_never_reused : forall s s', ids_ok (s_segs s) (s_counter
 Proof. exact compact_ids_never_reused. Qed.
 Print Assumptions C09_compact_ids_never_reused.
 
-(** on reopen the counter is the maximum identifier found in ANY file name, so identifiers of
-    segments whose hybrid file is missing are not reused either (model: open_store takes that max) *)
-Example C09_reopen_counter : s_counter (open_store p1 true false false 1000 5 [] 7) = 7.
+(** on reopen the counter restarts at the largest identifier that names ANY file of the directory
+    (registered or not), and the registered segments carry pairwise distinct identifiers: with the two
+    theorems above, no identifier present on disk — not even that of a partial segment — is reused *)
+Theorem C09_reopen_counter_dominates_every_file : forall p hv ht hm limit cthr known listing,
+  NoDup (map fst listing) ->
+  let s := reopen_store p hv ht hm limit cthr known listing in
+  ids_ok (s_segs s) (s_counter s) /\ (forall id, In id (map fst listing) -> id <= s_counter s).
+Proof. exact reopen_ids_ok. Qed.
+Print Assumptions C09_reopen_counter_dominates_every_file.
+
+Example C09_reopen_counter :
+  s_counter (reopen_store p1 true false false 1000 5 []
+               [(3, (FComplete, FComplete, FMissing, FMissing)); (8, (FMissing, FEmpty, FMissing, FMissing))]) = 8.
 Proof. reflexivity. Qed.
